@@ -67,7 +67,7 @@ pub fn run(c: &Case) -> Outcome {
             let mut connector = tls::connector_of(prev);
             // the first connection runs against a conforming server for that configuration; its outcome is not asserted here
             let _ = tls::run_tls_with_connector(&mut connector, prev, &server_cfg(&pc), 5, true);
-            let mut connector = tls::reconfigure(connector, &c.cfg);
+            let mut connector = tls::reconfigure_diff(connector, prev, &c.cfg);
             tls::run_tls_with_connector(&mut connector, &c.cfg, &scfg, 5, true)
         }
     };
@@ -499,7 +499,7 @@ pub fn gen_case(s: &mut Src, opts: Option<u8>) -> Case {
         p.restricted_admin = pb & 2 != 0;
         p.blank_creds = pb & 4 != 0;
         p.nla = pb & 1 != 0;
-        if s.bool() {
+        if s.chance(64) {
             p.password = format!("0ld-{}", p.password);
             p.user = format!("old{}", p.user);
         }
@@ -533,8 +533,13 @@ fn matrix() -> Vec<Case> {
             p.restricted_admin = a & 2 != 0;
             p.blank_creds = a & 4 != 0;
             p.auto_logon = a & 8 != 0;
-            p.password = format!("0ld-p4ss-{}-{}", a, b);
+            // once with the same credentials (only options are flipped), once with other credentials
+            let mut q = p.clone();
             c.previous = Some(Box::new(p));
+            v.push(c.clone());
+            q.password = format!("0ld-p4ss-{}-{}", a, b);
+            q.user = "olduser".into();
+            c.previous = Some(Box::new(q));
             v.push(c);
         }
     }
